@@ -26,6 +26,19 @@ struct Mon {
       if (!(s.begin() == s.position(0))) bad(std::string("sequence:begin-vs-position0:") + owner, "begin() is not position(0)");
       if (!(s.end() == s.position(n))) bad(std::string("sequence:end-vs-position-size:") + owner, "end() is not position(size())");
       if ((s.begin() == s.end()) != (n == 0)) bad(std::string("sequence:begin-eq-end:") + owner, "begin() == end() disagrees with size() == 0");
+      // an iterator is a (sequence, position) pair: equal positions of one sequence are equal iterators, different positions
+      // are not, and no position of this sequence equals the same position of ANOTHER sequence object of the same length
+      {
+         struct Other final : Sequence<T> { std::size_t n; explicit Other(std::size_t k) : n(k) { } typename Sequence<T>::Index size() const override { return n; } const T& get(typename Sequence<T>::Index) const override { throw std::logic_error("an element of the harness's stand-in sequence was read"); } };
+         const Other other(n);
+         C.count("iterator_equality_checks");
+         for (std::size_t i : { std::size_t(0), n / 2, n }) {
+            if (!(s.position(i) == s.position(i)) || s.position(i) != s.position(i)) bad(std::string("sequence:iterator-equality:same-position-unequal:") + owner, "two iterators at the same position of one sequence do not compare equal");
+            if (s.position(i) == other.position(i) || !(s.position(i) != other.position(i))) bad(std::string("sequence:iterator-equality:other-sequence-equal:") + owner, "an iterator compares equal to the iterator at the same position of another sequence object");
+            if (i != n - i && (s.position(i) == s.position(n - i) || !(s.position(i) != s.position(n - i)))) bad(std::string("sequence:iterator-equality:different-positions-equal:") + owner, "iterators at different positions of one sequence compare equal");
+         }
+         if (s.begin() == other.begin() || s.end() == other.end()) bad(std::string("sequence:iterator-equality:other-sequence-equal:") + owner, "begin() / end() compare equal to those of another sequence object of the same length");
+      }
       std::size_t steps = 0;
       auto it = s.begin();
       const std::size_t cap = std::min<std::size_t>(n, 600);
@@ -418,7 +431,7 @@ static void body(Ctx& C)
    std::string list = "["; for (auto& k : M.kinds_seen) { if (list.size() > 1) list += ","; list += jstr(k); } C.extra("kinds_and_states", list + "]");
    C.sample(J().s("case", "Block with 3 handlers: try_block() vs handlers().size() > 0; body() vs region().body()").str());
    C.sample(J().s("case", "Linkage(\"C\") == Linkage(get_string(\"C\")) and != Linkage(\"c\")").str());
-   C.need("sequence_checks"); C.need("derived_checks"); C.need("equality_pairs"); C.need("iterator_walk_moves"); C.need("iterators_compared_across_growth"); C.need("nodes_checked"); C.need("library_made_basic_specifiers", 17); C.need("library_made_basic_qualifiers", 3);
+   C.need("sequence_checks"); C.need("derived_checks"); C.need("equality_pairs"); C.need("iterator_walk_moves"); C.need("iterator_equality_checks"); C.need("iterators_compared_across_growth"); C.need("nodes_checked"); C.need("library_made_basic_specifiers", 17); C.need("library_made_basic_qualifiers", 3);
 }
 
 int main(int argc, char** argv) { return guarded_main(argc, argv, body); }
